@@ -19,7 +19,7 @@ def run(ctx, model_ok):
     env = cc.Env()
     n = 150 if ctx.quick() else 2500
     cases_ws = [cc.gen_windows(ctx.rng, env, ctx.rng.choice([3, 8, 15, 30])) for _ in range(n)]
-    res = vlib.run_impl('run_composite.py', {'cases': cases_ws})['results']
+    res = vlib.run_impl('run_composite.py', {'cases': cases_ws, 'declared': True})['results']
     ctx.evaluations = sum(len(ws) for ws in cases_ws)
     ctx.rule = ('windows from a grammar: sampler windows (flag words incl. neither/both of TH_INFO and USTACK, 0..2 thread-data, '
                 '0..2 stack-header, 0..5 stack-data records, shuffled, with unrelated records), launch windows (0..6 nested '
